@@ -1,6 +1,6 @@
 (* helpers shared by every driver; compiled per driver directory against that
    directory's extracted Model (for its [nat] type). *)
-module ZA = Z   (* zarith's Z, captured before Model (which may define its own module Z) is opened *)
+module ZA = Z
 open Model
 
 let rec nat_of_int (n : int) : nat = if n <= 0 then O else S (nat_of_int (n - 1))
